@@ -250,7 +250,6 @@ fn inner_extend_token<'a>(
             }
 
             oq3_lexer::TokenKind::Whitespace => WHITESPACE,
-            oq3_lexer::TokenKind::Ident if token_text == "_" => UNDERSCORE,
 
             // If it looks like an identifer, look first if it is a keyword.
             oq3_lexer::TokenKind::Ident => SyntaxKind::from_keyword(token_text)
